@@ -2,6 +2,7 @@ package pbar
 
 import (
 	"io"
+	"sync"
 
 	"github.com/vbauerster/mpb/v8"
 	"github.com/vbauerster/mpb/v8/decor"
@@ -14,6 +15,7 @@ const (
 
 type Container struct {
 	p     *mpb.Progress
+	mu    sync.Mutex // guards p: bars are created lazily from several goroutines
 	out   io.Writer
 	quiet bool
 }
@@ -30,6 +32,13 @@ func (c *Container) ensureProgress() {
 	if c.p == nil {
 		c.p = mpb.New(mpb.WithOutput(c.out))
 	}
+}
+
+func (c *Container) progress() *mpb.Progress {
+	c.mu.Lock()
+	defer c.mu.Unlock()
+	c.ensureProgress()
+	return c.p
 }
 
 func (c *Container) NewBar(total int64, name string, unit int) Bar {
@@ -57,7 +66,7 @@ func (c *Container) addBar(total int64, name string, unit int) *mpb.Bar {
 			mpb.AppendDecorators(decor.Elapsed(decor.ET_STYLE_GO)),
 		)
 	}
-	b := c.p.New(total,
+	b := c.progress().New(total,
 		mpb.BarStyle().Lbound("[").Filler("=").Tip(">").Padding(" ").Rbound("]"),
 		options...,
 	)
@@ -66,11 +75,14 @@ func (c *Container) addBar(total int64, name string, unit int) *mpb.Bar {
 }
 
 func (c *Container) Wait() {
-	if c.p == nil {
+	c.mu.Lock()
+	p := c.p
+	c.p = nil
+	c.mu.Unlock()
+	if p == nil {
 		return
 	}
-	c.p.Wait()
-	c.p = nil
+	p.Wait()
 }
 
 func (c *Container) OverideQuiet(quiet bool) (restore func()) {
